@@ -1,0 +1,17 @@
+// Copyright The gittuf Authors
+// SPDX-License-Identifier: Apache-2.0
+
+//go:build verif
+
+package gitinterface
+
+// VerifYield, when set, is called at named points inside storage operations
+// (build tag verif only). The conformance harness uses it as a scheduler gate
+// between the tip read and the compare-and-set of Commit.
+var VerifYield func(point, refName string)
+
+func verifYield(point, refName string) {
+	if VerifYield != nil {
+		VerifYield(point, refName)
+	}
+}
